@@ -23,11 +23,14 @@
    same grid on two real stacks and Trace_P2pNeg requires proj = Proj(Expected(c)).        *)
 EXTENDS Naturals, Sequences, FiniteSets, TLC
 
-CONSTANTS Kinds          \* sub-grids to enumerate: subset of {"dep", "ml", "opt", "depx", "llcp"}
+CONSTANTS Kinds,         \* sub-grids to enumerate: subset of {"dep", "ml", "opt", "depx", "llcp"}
+          MaxSent        \* frames an obeying sender puts on the link per behaviour (model checking bound)
 
 VARIABLES c,             \* configuration
-          ph             \* "start" -> "up" | "down"
-vars == <<c, ph>>
+          ph,            \* "start" -> "up" | "down"
+          conn,          \* connection MIUs announced after activation: {[side, sap, miu]} (CONNECT / CC seen from side)
+          sent           \* history of what crossed the link: {[layer, dir, size, limit]}
+vars == <<c, ph, conn, sent>>
 
 LRTab == <<64, 128, 192, 254>>
 LR(k) == LRTab[k + 1]
@@ -110,24 +113,79 @@ WithinRanges(e) ==
     /\ e.i.sendLsc \in 0..3 /\ e.t.sendLsc \in 0..3
     /\ e.brty \in {"106A", "212F", "424F"} /\ (e.psl => e.brty # e.brty0)
 
-\* ------------------------------------------------------------------ one-step behaviour
+\* ------------------------------------------------------------------ behaviour: activation, then traffic
 Init == /\ \E kind \in Kinds : \E k \in 0..(Size(kind) - 1) : c = GridCfg(kind, k)
-        /\ ph = "start"
+        /\ ph = "start" /\ conn = {} /\ sent = {}
 
+\* the negotiation action: from here on the limits of Expected(c) bind both sides
 Activate == /\ ph = "start"
             /\ ph' = IF Expected(c).ok THEN "up" ELSE "down"
-            /\ UNCHANGED c
+            /\ UNCHANGED <<c, conn, sent>>
+
+\* a second negotiation action: a CONNECT or CC PDU of `side` ("I" / "T") announces the MIU of the data link
+\* connection that ends at its service access point `sap`
+Announce(side, sap, miu) ==
+    /\ ph = "up" /\ Cardinality(conn) < MaxSent
+    /\ conn' = conn \cup {[side |-> side, sap |-> sap, miu |-> miu]}
+    /\ UNCHANGED <<c, ph, sent>>
+
+Rcv(dir) == IF dir = "IT" THEN "T" ELSE "I"
+LinkMiu(x, dir) == IF dir = "IT" THEN Expected(x).t.recvMiu ELSE Expected(x).i.recvMiu   \* what the receiver announced
+MinOf(S) == CHOOSE m \in S : \A n \in S : m <= n
+\* the limit of the receiver for a unit of layer `layer` travelling in direction `dir`:
+\*   "dep"  transport bytes of one NFC-DEP frame          <= LR announced by the receiver
+\*   "llc"  information field of one LLC PDU (also AGF)   <= link MIU announced in the receiver's general bytes
+\*   "ui"   payload of a UI PDU                           <= link MIU of the receiver
+\*   "i"    payload of an I PDU to the receiver's SAP     <= MIU the receiver announced for that connection
+\*                                                           (CONNECT/CC), never more than its link MIU
+Limit(x, cn, layer, dir, sap) ==
+    LET e == Expected(x)
+        ms == {a.miu : a \in {b \in cn : b.side = Rcv(dir) /\ b.sap = sap}} IN
+    CASE layer = "dep" -> IF dir = "IT" THEN e.lrT ELSE e.lrI
+      [] layer = "i" /\ ms # {} -> MinOf(ms \cup {LinkMiu(x, dir)})
+      [] OTHER -> LinkMiu(x, dir)
+
+Unit(x, cn, layer, dir, sap, size) ==
+    [layer |-> layer, dir |-> dir, size |-> size, limit |-> Limit(x, cn, layer, dir, sap)]
+
+\* a sender that obeys puts nothing larger than the receiver's limit on the link (model checking explores
+\* senders that go exactly to the limit; the binding records what the real senders did, see Trace_P2pNeg)
+Send(layer, dir, sap, size) ==
+    /\ ph = "up" /\ Cardinality(sent) < MaxSent
+    /\ size <= Limit(c, conn, layer, dir, sap)
+    /\ sent' = sent \cup {Unit(c, conn, layer, dir, sap, size)}
+    /\ UNCHANGED <<c, ph, conn>>
 
 \* traffic after activation: a DEP frame of `size` transport bytes at bit rate `brty`
 FrameOk(x, dir, size, brty) ==
     LET e == Expected(x) IN size <= (IF dir = "IT" THEN e.lrT ELSE e.lrI) /\ brty = e.brty
 
-Next == Activate
+\* the timeouts the run loops must use, in carrier cycles (1/13.56 MHz): the initiator waits the response
+\* waiting time of the target (4096 * 2^WT cycles) unless the link timeout of the peer (+10 ms) is shorter,
+\* the target waits the link timeout the initiator announced (+ 10 ms)
+RECURSIVE Pow2(_)
+Pow2(n) == IF n = 0 THEN 1 ELSE 2 * Pow2(n - 1)
+ExpWait(x, side) ==
+    LET e == Expected(x) IN
+    IF side = "T" THEN (e.t.recvLto + 10) * 13560
+    ELSE IF 4096 * Pow2(e.wt) <= (e.i.recvLto + 10) * 13560 THEN 4096 * Pow2(e.wt) ELSE (e.i.recvLto + 10) * 13560
+\* the link timeout a side announced bounds its own turn-around time (microseconds)
+ExpTurn(x, side) == 1000 * (IF side = "I" THEN x.ltoI ELSE x.ltoT)
+
+Next == \/ Activate
+        \/ \E side \in {"I", "T"} : \E m \in {128, LinkMiu(c, IF side = "I" THEN "TI" ELSE "IT")} : Announce(side, 32, m)
+        \/ \E layer \in {"dep", "llc", "ui", "i"}, dir \in {"IT", "TI"} :
+              Send(layer, dir, 32, Limit(c, conn, layer, dir, 32))
 Spec == Init /\ [][Next]_vars
 
 SymmetricInv == (ValidCfg(c) /\ Expected(c).ok) => Symmetric(Expected(c))
 RangesInv    == (ValidCfg(c) /\ Expected(c).ok) => WithinRanges(Expected(c))
 AllValid     == ValidCfg(c)
+\* both sides obey the negotiated limits: nothing that crossed the link is larger than its receiver allowed
+ObeyP(s) == \A f \in s : f.size <= f.limit
+Obey == ObeyP(sent)
+\* the limits are the negotiated ones: an I PDU limit never exceeds the link MIU of the receiver
+LimitsSane == \A f \in sent : f.limit <= (IF f.layer = "dep" THEN 254 ELSE 2175) /\ f.limit >= (IF f.layer = "dep" THEN 64 ELSE 128)
 
 \* witnesses (must be violated)
 W_Psl    == ~(ph = "up" /\ Expected(c).psl)
@@ -135,4 +193,6 @@ W_NoPsl  == ~(ph = "up" /\ ~Expected(c).psl /\ Expected(c).brty = "212F")
 W_Down   == ~(ph = "down")
 W_Acm    == ~(ph = "up" /\ Expected(c).acm)
 W_MaxMiu == ~(ph = "up" /\ Expected(c).i.sendMiu = 2175 /\ Expected(c).t.depMiu = 61)
+W_ConnLim == ~(\E f \in sent : f.layer = "i" /\ f.limit = 128 /\ LinkMiu(c, f.dir) > 128)
+W_Full    == ~(\E f \in sent : f.layer = "llc" /\ f.size = 2175)
 =============================================================================
